@@ -17,6 +17,7 @@ type ReplayResult struct {
 	Dirs          map[string]string // harness/assert -> replay dir
 	NoNative      map[string]bool   // harness has no native replay (engine-only stubs)
 	TracesOK      int
+	TracesSkipped int
 	TraceMismatch int
 	MismatchInfo  []string
 	Replays       int
@@ -164,6 +165,12 @@ func replayAll(cfg *RunConfig, ld *Loaded, runs []*HarnessRun) *ReplayResult {
 			continue
 		}
 		// trace comparison
+		if strings.Contains(res.Stopped, "assumption violated") {
+			// the native run asked for an input the symbolic path never drew (e.g. a different number of reads
+			// because the runtime grows buffers differently): not comparable, neither agreement nor disagreement
+			rr.TracesSkipped++
+			continue
+		}
 		okTrace := len(res.Failed) == 0 && res.Stopped == ""
 		var diffs []string
 		for k, v := range c.obs {
